@@ -121,6 +121,41 @@ def run(world, rep, tier, only=None):
             rep.ob("C04.b", site(sb, "flush failure returned[%s]" % tag), not bad,
                    "non-zero io_channel_flush maps to a non-zero return of sync_blockdev",
                    [("return line %d value %s" % (b[0].line, b[1]), b[2]) for b in bad[:2]] or None)
+        # C04.f the device a request names decides the channel: j_fs_dev -> the file system's channel, j_dev -> the journal's
+        # (with an external journal the two differ; flushing the journal device instead of the file system leaves the
+        # replayed blocks in the cache while the journal is already marked empty)
+        n_sel = 0
+        for jf in prog.fns_in_file(jfile):
+            for st in jf.events("S"):
+                rhs = st.ev.get("rhs")
+                if not isinstance(rhs, dict) or st.ev.get("o") != "=":
+                    continue
+                # only the selections inside the block-device emulation (functions that take a kdev_t)
+                if not any("kdev" in (p_.get("t") or "") for p_ in jf.raw.get("params", [])):
+                    continue
+                chans = set()
+                for x in T.walk(rhs):
+                    if isinstance(x, dict) and x.get("k") == "m":
+                        if x.get("f") == "io" and x.get("r") == "struct_ext2_filsys":
+                            chans.add("fs")
+                        elif x.get("f") == "journal_io":
+                            chans.add("journal")
+                if not chans:
+                    continue
+                n_sel += 1
+                if len(chans) > 1 or T.strip(rhs).get("k") != "m":
+                    rep.ob("C04.f", site(jf, "channel chosen on the device the request names[%s]#%d" % (tag, n_sel)), False,
+                           "`%s` (line %d) picks between the channels by something else than kdev->k_dev" % (st.text()[:50], st.line))
+                    continue
+                kind = sorted(chans)[0]
+                lits = control_lits(jf, st)
+                on_fs = [t for t, a in lits if "k_dev" in T.field_names(a) and "K_DEV_FS" in T.macros(a) and
+                         isinstance(T.strip(a), dict) and T.strip(a).get("o") == "=="]
+                ok = bool(on_fs) and all(t == (kind == "fs") for t in on_fs)
+                rep.ob("C04.f", site(jf, "%s channel chosen on k_dev %s K_DEV_FS[%s]#%d" % (kind, "==" if kind == "fs" else "!=", tag, n_sel)), ok,
+                       "`%s` (line %d) is control-dependent on `kdev->k_dev == K_DEV_FS` being %s" %
+                       (st.text()[:40], st.line, kind == "fs"))
+        rep.floor("C04.f[%s] channel selections in the block-device emulation" % tag, n_sel, 1)
         # slot resolution must include the unix manager; wrapping managers forward
         impls = prog.slot_names("struct_io_manager", "flush")
         rep.ob("C04.b", "struct_io_manager.flush:slot-resolution[%s]" % tag, "unix_flush" in impls,
